@@ -27,6 +27,11 @@ func budget(tier string, quick, thorough time.Duration) time.Duration {
 	if tier == "thorough" {
 		return thorough
 	}
+	// The quick tiers are sized to finish in well under a minute on an idle machine; the budget only
+	// matters on a loaded one, where it turns a slow run into a capped (exhaustive:false) one.
+	if quick < 2*time.Minute {
+		quick = 2 * time.Minute
+	}
 	return quick
 }
 
